@@ -101,7 +101,8 @@ Definition AF_INET6 : Z := 10.
 
 (* sockaddr_in / sockaddr_in6 as far as muduo touches them: family, the two bytes of
    sin_port / sin6_port as they lie in memory, the bytes of sin_addr / sin6_addr *)
-Record sockaddr := mkSA { sa_family : Z; sa_port : list byte; sa_addr : list byte }.
+Record sockaddr := mkSA { sa_family : Z; sa_port : list byte; sa_addr : list byte;
+                          sa_scope : Z (* sin6_scope_id; the constructors zero the whole object first *) }.
 
 (* SPECIFICATION of "network byte order" for a port: most significant byte first *)
 Definition port_store (p : Z) : list byte := be_encode 2 p.
@@ -153,19 +154,69 @@ Definition inet_make (pton6 : list byte -> option (list byte)) (ip : list byte) 
   : sockaddr :=
   if ipv6 || has_marker ip then
     mkSA SocketsOps_fromIpPort6_family (le_encode 2 (SocketsOps_fromIpPort6_sin6_port port))
-         (match inet_pton_m pton6 SocketsOps_fromIpPort6_pton_family ip with Some a => a | None => zero_bytes 16 end)
+         (match inet_pton_m pton6 SocketsOps_fromIpPort6_pton_family ip with Some a => a | None => zero_bytes 16 end) 0
   else
     mkSA SocketsOps_fromIpPort4_family (le_encode 2 (SocketsOps_fromIpPort4_sin_port port))
-         (match inet_pton_m pton6 SocketsOps_fromIpPort4_pton_family ip with Some a => a | None => zero_bytes 4 end).
+         (match inet_pton_m pton6 SocketsOps_fromIpPort4_pton_family ip with Some a => a | None => zero_bytes 4 end) 0.
 
 (* InetAddress(port, loopbackOnly, ipv6); in6addr_loopback / in6addr_any are platform objects *)
 Definition inet_port_only (port : Z) (loopbackOnly ipv6 : bool) : sockaddr :=
   if ipv6 then
     mkSA InetAddress_ctor_family6 (le_encode 2 (InetAddress_ctor_sin6_port port))
-         (if loopbackOnly then zero_bytes 15 ++ [x01] else zero_bytes 16)
+         (if loopbackOnly then zero_bytes 15 ++ [x01] else zero_bytes 16) 0
   else
     mkSA InetAddress_ctor_family4 (le_encode 2 (InetAddress_ctor_sin_port port))
-         (le_encode 4 (InetAddress_ctor_s_addr loopbackOnly)).
+         (le_encode 4 (InetAddress_ctor_s_addr loopbackOnly)) 0.
+
+(* InetAddress::setScopeId: stored only in an IPv6 address; toIp / toIpPort / port() never read it
+   (inet_ntop does not print a scope) *)
+Definition set_scope_id (sa : sockaddr) (id : Z) : sockaddr :=
+  if sa_family sa =? InetAddress_setScopeId_family then mkSA (sa_family sa) (sa_port sa) (sa_addr sa) id else sa.
+
+(* ------------------------------------------------------------------ the same with the buffers *)
+
+(* InetAddress::toIp() / toIpPort() hand sockets::toIp / toIpPort a zero-filled scratch array of
+   [size] bytes.  [None] = an assert of SocketsOps.cc fails (the harness builds keep asserts on).
+   inet_ntop writes nothing when the text and its terminator do not fit (ENOSPC); snprintf
+   truncates to the room it is given. *)
+Definition ntop_into (size : Z) (text : list byte) : list byte :=
+  if Z.of_nat (length text) <? size then text else [].
+
+Definition snprintf_into (room : Z) (text : list byte) : list byte := firstn (Z.to_nat (room - 1)) text.
+
+Definition toIp_buf (size : Z) (ntop6 : list byte -> list byte) (sa : sockaddr) : option (list byte) :=
+  if sa_family sa =? SocketsOps_toIp_family4 then
+    if size >=? SocketsOps_toIp_need4 then Some (ntop_into size (inet_ntop_m ntop6 SocketsOps_toIp_family4 (sa_addr sa))) else None
+  else if sa_family sa =? SocketsOps_toIp_family6 then
+    if size >=? SocketsOps_toIp_need6 then Some (ntop_into size (inet_ntop_m ntop6 SocketsOps_toIp_family6 (sa_addr sa))) else None
+  else Some [].
+
+Definition toIpPort_buf (size : Z) (ntop6 : list byte -> list byte) (sa : sockaddr) : option (list byte) :=
+  if sa_family sa =? SocketsOps_toIpPort_family6 then
+    match toIp_buf (size - SocketsOps_toIpPort_v6_off) ntop6 sa with
+    | None => None
+    | Some ip =>
+      let cur := byte_of_Z SocketsOps_toIpPort_open6 :: ip in     (* strlen(buf) *)
+      let e := Z.of_nat (length cur) in
+      if size >? e then
+        Some (cur ++ snprintf_into (size - e) (fmt_u SocketsOps_toIpPort_fmt6 (SocketsOps_toIpPort_port6 (le_decode (sa_port sa)))))
+      else None
+    end
+  else
+    match toIp_buf size ntop6 sa with
+    | None => None
+    | Some ip =>
+      let e := Z.of_nat (length ip) in
+      if size >? e then
+        Some (ip ++ snprintf_into (size - e) (fmt_u SocketsOps_toIpPort_fmt4 (SocketsOps_toIpPort_port4 (le_decode (sa_port sa)))))
+      else None
+    end.
+
+(* string InetAddress::toIp() const / toIpPort() const *)
+Definition inet_toIp (ntop6 : list byte -> list byte) (sa : sockaddr) : option (list byte) :=
+  toIp_buf InetAddress_toIp_bufsize ntop6 sa.
+Definition inet_toIpPort (ntop6 : list byte -> list byte) (sa : sockaddr) : option (list byte) :=
+  toIpPort_buf InetAddress_toIpPort_bufsize ntop6 sa.
 
 (* ------------------------------------------------------------------ specification side *)
 
